@@ -10,16 +10,16 @@ TRUSTED = ("Trusted base: the independent reference model in mc/src/refmodel (ke
 
 # id -> (technique, level text, level note, design ref)
 CHECKS = {
-    "C02": ("explicit-state enumeration of builder configurations (k-deviation product over walk alphabets) executed on the real code, reference-model comparison per case",
+    "C02": ("explicit-state enumeration of builder configurations (k-deviation product over walk alphabets) executed on the real code, each built plainly and with the intermediate builder queried after every call (a two-step history per call), reference-model comparison per case",
             "Every SR/RR configuration in the stated product / k-deviation spaces is built and parsed with the real code and compared field by field with the configuration; exhaustive inside the bounds.",
             TRUSTED, "3 (C02)"),
-    "C03": ("explicit-state enumeration of SDES configurations (all length pairs, boundary residues x SSRC byte patterns) executed on the real code, reference-model comparison per case",
+    "C03": ("explicit-state enumeration of SDES configurations (all length pairs, boundary residues x SSRC byte patterns) executed on the real code, each built plainly and with the intermediate builders queried after every call, reference-model comparison per case",
             "Every SDES configuration in the stated spaces is built, parsed and compared chunk by chunk and item by item; exhaustive inside the bounds.",
             TRUSTED, "3 (C03)"),
-    "C04": ("explicit-state enumeration (complete product sources x reason length x padding; APP field product) executed on the real code, reference-model comparison per case",
+    "C04": ("explicit-state enumeration (complete product sources x reason length x padding; APP field product) executed on the real code, each built plainly and with the intermediate builder queried after every call, reference-model comparison per case",
             "The BYE space 32 x 256 x 64 is complete; APP covers the stated product. Each case is built, parsed and compared.",
             TRUSTED, "3 (C04)"),
-    "C05": ("explicit-state enumeration (all subsets of a NACK window, all FIR add-sequences, SLI/RPSI products) executed on the real code, reference-model comparison per case",
+    "C05": ("explicit-state enumeration (all subsets of a NACK window, all FIR add-sequences, SLI/RPSI products) executed on the real code, each built in both the owned and the borrowed FCI flavour, one of them with the intermediate builders queried after every call, reference-model comparison per case",
             "Every feedback configuration in the stated spaces is built, parsed, its FCI decoded and compared with what was put in; exhaustive inside the bounds.",
             TRUSTED, "3 (C05)"),
 }
@@ -58,10 +58,10 @@ CHECKS.update({
     "C13": ("exhaustive enumeration packets x all 63 legal paddings applied by an independent reference padder; content accessors of the padded packet compared with those of the unpadded one",
             "Every unpadded well-formed packet of the base set and of a stride through every configuration space is padded by the reference padder with every amount 4..=252; acceptance, padding() and all content accessors (blocks, chunks/items, sources/reason, payload, FCI entries) are compared.",
             TRUSTED, "3 (C13)"),
-    "C14": ("explicit-state enumeration of all member lists up to a depth over a 20-kind menu (incl. nested compounds, wrapped and third-party members) executed on the real code; reference predicate and concatenation oracle, then parse-back in lock-step",
+    "C14": ("explicit-state enumeration of all member lists up to a depth over a 20-kind menu (incl. nested compounds, wrapped and third-party members), all pairs of base-set packets and all lists of up to 3 members at the size limits (262144 / 262140 / 65536 / 65532 bytes) executed on the real code; reference predicate and concatenation oracle, then parse-back in lock-step",
             "For every list: accept iff the reference predicate says so, size = sum, bytes = concatenation of the members' own images, Compound::parse + iteration yields each leaf equal to the leaf parsed alone.",
             TRUSTED, "3 (C14)"),
-    "C15": ("exhaustive enumeration of FCI words/bodies (quick: 118 PIDs x all 65536 bitmasks; thorough: all 2^32 NACK and SLI words) and of all (kind, format, FCI type) gates; reference decoder compared with the real iterators",
+    "C15": ("exhaustive enumeration of FCI words/bodies (quick: 118 PIDs x all 65536 bitmasks; thorough: all 2^32 NACK and SLI words) of all (kind, format, FCI type) gates, of FCI byte strings delimited by padding counts that are not multiples of 4, and of lists up to the 65533-word maximum; reference decoder compared with the real iterators",
             "Every explored FCI body is decoded by the real parse_fci + iterators and by the reference decoder; gating is checked for 2 kinds x 32 formats x 5 types; the FCI parsers are also driven directly at every length 0..=40.",
             TRUSTED, "3 (C15)"),
     "C18": ("exhaustive enumeration of byte strings fed to every parser of the real code; every returned error compared with facts read from the input by a reference header reader",
@@ -76,7 +76,7 @@ CHECKS.update({
     "C19": ("exhaustive enumeration of helper parameters, of a 24-member family of third-party packet definitions over the header space, and of Ext / UnknownBuilder configurations executed on the real code; byte-exact helper contracts and a three-valued framing classifier as reference",
             "The public writer/parser helpers are checked byte-exactly over all paddings, counts and 17 buffer sizes; check_packet::<P> is compared with the framing classifier for 6 type numbers x 4 minimum sizes on every string of the header space; every written third-party / unknown packet is parsed generically, must expose its bytes and convert back intact, also from inside compounds.",
             TRUSTED, "3 (C19)"),
-    "C20": ("history-tree exploration without merging: all sequences of builder method calls up to a depth over a small call alphabet replayed on the real builders and on a trivial model, in four wrapper flavours, compared with the canonical construction of the final state",
+    "C20": ("history-tree exploration without merging: all sequences of builder method calls up to a depth over a small call alphabet replayed on the real builders and on a trivial model, in four wrapper flavours, compared with the canonical construction of the final state; plus every configuration of the round-trip generator spaces realised in all 16 API flavours (owned/borrowed x 4 wrappers x builder queried after every call or not), each compared with the plain flavour",
             "Every call history up to the stated depth (setters in any order with repeats, list adds, owned/borrowed variants, wrapper flavours) must produce the bytes of the canonical construction of its final configuration (FIR up to entry order).",
             TRUSTED, "3 (C20)"),
 })
